@@ -19,6 +19,8 @@ pub enum FormatError {
 	TruncatedFormatCode,
 	#[error("unrecognized conversion type: {0}")]
 	UnrecognizedConversionType(char),
+	#[error("field width or precision is too large")]
+	FieldWidthTooLarge,
 
 	#[error("not enough values")]
 	NotEnoughValues,
@@ -150,8 +152,10 @@ pub fn try_parse_field_width(str: &str) -> ParseResult<'_, Width> {
 	let mut out: u16 = 0;
 	let mut digits = 0;
 	while let Some(digit) = (bytes[digits] as char).to_digit(10) {
-		out *= 10;
-		out += digit as u16;
+		out = out
+			.checked_mul(10)
+			.and_then(|out| out.checked_add(digit as u16))
+			.ok_or(FieldWidthTooLarge)?;
 		digits += 1;
 		if digits == bytes.len() {
 			return Err(TruncatedFormatCode);
